@@ -4436,6 +4436,8 @@ void SymbolDatabase::printXml(std::ostream &out) const
     std::string outs;
 
     std::set<const Variable *> variables;
+    // the variables in the order they are found (the output must not depend on the addresses)
+    std::vector<const Variable *> variablesOrdered;
 
     // Scopes..
     outs += "  <scopes>\n";
@@ -4543,7 +4545,8 @@ void SymbolDatabase::printXml(std::ostream &out) const
                             outs += "\" variable=\"";
                             outs += id_string(arg);
                             outs += "\"/>\n";
-                            variables.insert(arg);
+                            if (variables.insert(arg).second)
+                                variablesOrdered.push_back(arg);
                         }
                         outs += "        </function>\n";
                     }
@@ -4599,10 +4602,12 @@ void SymbolDatabase::printXml(std::ostream &out) const
     }
 
     // Variables..
-    for (const Variable *var : mVariableList)
-        variables.insert(var);
+    for (const Variable *var : mVariableList) {
+        if (variables.insert(var).second)
+            variablesOrdered.push_back(var);
+    }
     outs += "  <variables>\n";
-    for (const Variable *var : variables) {
+    for (const Variable *var : variablesOrdered) {
         if (!var)
             continue;
         outs += "    <var id=\"";
